@@ -194,8 +194,16 @@ def run_case(case):
             obs["local_reference_error"] = [f"{type(exc).__name__}: {str(exc)[:80]}"]
         # the same directory is also served under names that need percent-escapes in a URL
         srv.httpd.aliases = {"my data": "ds", "donn\u00e9es+v1": "ds"}
+        # the fault scripts run against a URL with user information (a token, no password)
+        # for a third of the datasets
+        fault_url = f"{srv.base}/ds"
+        if case["dseed"] % 3 == 0:
+            fault_url = srv.base.replace("http://", "http://t0ken@") + "/ds"
+            obs["fault_runs_on_a_url_with_user_information"] = 1
         for url in (f"{srv.base}/ds", f"{srv.base}/ds/", f"precomputed://{srv.base}/ds",
-                    f"{srv.base}/my%20data", f"{srv.base}/donn%C3%A9es%2Bv1/"):
+                    f"{srv.base}/my%20data", f"{srv.base}/donn%C3%A9es%2Bv1/",
+                    f"{srv.base}/ds?rev=3", f"{srv.base}/ds/#top",
+                    srv.base.replace("http://", "http://t0ken@") + "/ds"):
             obs["url_spellings"] += 1
             obs["percent_escaped_urls"] = obs.get("percent_escaped_urls", 0) + ("%" in url)
             try:
@@ -263,7 +271,7 @@ def run_case(case):
                 for mode in FAULTS:
                     positions = [0] if not all_sharded else [0, 1, 2]
                     for skip in positions:
-                        h = accessor_mod.get_accessor_for_url(f"{srv.base}/ds")
+                        h = accessor_mod.get_accessor_for_url(fault_url)
                         srv.arm(mode, "/" + ch[0] + "/", skip=skip,
                                 range_only=mode in ("short", "long", "ignore-range"))
                         outcome = None
@@ -318,7 +326,7 @@ def run_case(case):
                         break
             # faults on the HEAD probes (shard discovery, file_exists)
             for mode in ("404", "500", "503"):
-                h = accessor_mod.get_accessor_for_url(f"{srv.base}/ds")
+                h = accessor_mod.get_accessor_for_url(fault_url)
                 ch = targets[0]
                 srv.arm(mode, "/" + ch[0] + "/", methods=("HEAD",))
                 try:
@@ -335,7 +343,7 @@ def run_case(case):
                         v.append({"kind": "server-fault-returned-as-data",
                                   "detail": f"{ctx} chunk {ch}: {mode!r} on HEAD probes: "
                                   f"fetch_chunk returned {len(outcome[1])} different bytes"})
-                h = accessor_mod.get_accessor_for_url(f"{srv.base}/ds")
+                h = accessor_mod.get_accessor_for_url(fault_url)
                 srv.arm(mode, "/ds/info", methods=("HEAD",))
                 try:
                     ex = h.file_exists("info")
@@ -353,7 +361,7 @@ def run_case(case):
                                   "detail": f"{ctx}: {mode!r} on HEAD info: {outcome}"})
             # info file under fault (plain accessor): fetch_file must raise
             for mode in ("404", "500", "drop"):
-                h = accessor_mod.get_accessor_for_url(f"{srv.base}/ds")
+                h = accessor_mod.get_accessor_for_url(fault_url)
                 srv.arm(mode, "/ds/info")
                 try:
                     r = h.fetch_file("info")
